@@ -150,6 +150,13 @@ theorem C15_source_sequence_init_numsteps (X : Ext) (src : Val) (n : Val) :
     Gen.c15oSeqNumStepsSrc.run X [.record [("_source", .record [("number_of_steps", n)])]] = .ok n := by
   constructor <;> simp only [Gen.c15oSeqInitSrc, Gen.c15oSeqNumStepsSrc] <;> pylite_eval [dictSet]
 
+/-- the variable the `while` loop of the translated `__iter__` tests (read off the translation, so that the proof does not depend on
+    how the translator numbers the locals) -/
+def C15.iterCondVar : String :=
+  match Gen.c15oSeqIterSrc.body.getLast? with
+  | some (.whileF _ (.var c) _) => c
+  | _ => "?"
+
 /-- **`FieldDataSequence.__iter__` is the model's `iterSeq`** (FcModel/Seq.lean), for EVERY source state — in particular whatever
     cursor an abandoned earlier iteration left behind — and every sufficient fuel: the source is RESET first, then every step
     `0, 1, …, n-1` is yielded exactly once, in order (`get` after every successful `step`), and the source is left where `iterSeq`
@@ -182,15 +189,19 @@ theorem C15_source_sequence_iter {X : Ext} {fuel : Nat} (hX : SrcExt X fuel) (s 
     generalize hw : whileLoop _ _ _ _ = r
     have key : ∃ (st' : St) (items : List Nat) (tf : Src), r = .next st' ∧ (iterLoop ⟨s.n, 0⟩).1 = items.map some ∧
         st'.out = [stepV 0] ++ items.map stepV ∧
-        (st'.env.lookup "v0" = some (seqSelfV (tf.step).1) ∧ st'.env.lookup "v4" = some (.bool (tf.step).2)) ∧
+        (st'.env.lookup "v0" = some (seqSelfV (tf.step).1) ∧ st'.env.lookup C15.iterCondVar = some (.bool (tf.step).2)) ∧
         (tf.step).1 = (iterLoop ⟨s.n, 0⟩).2 := by
       rw [← hw]
       refine whileLoop_iterLoop _ _
-        (fun t st => st.env.lookup "v0" = some (seqSelfV (t.step).1) ∧ st.env.lookup "v4" = some (.bool (t.step).2))
+        (fun t st => st.env.lookup "v0" = some (seqSelfV (t.step).1) ∧
+          st.env.lookup C15.iterCondVar = some (.bool (t.step).2))
         ?_ ?_ fuel ⟨s.n, 0⟩ _ ?_ ?_
       · rintro t st ⟨i0, i4⟩
+        simp only [C15.iterCondVar, Gen.c15oSeqIterSrc, List.getLast?, List.getLast] at i4
         simp [i4, Res.bind, truthy_bool]
       · rintro t st ⟨i0, i4⟩ hb
+        simp only [C15.iterCondVar, Gen.c15oSeqIterSrc, List.getLast?, List.getLast]
+        simp only [C15.iterCondVar, Gen.c15oSeqIterSrc, List.getLast?, List.getLast] at i4
         have hlt : t.cur + 1 < t.n := by simpa [Src.step] using hb
         have hg : X ".get!" [.record [("n", .int t.n), ("cur", .int (t.cur + 1 : Nat))]] =
             .ok (.list [stepV (t.cur + 1), .record [("n", .int t.n), ("cur", .int (t.cur + 1 : Nat))]]) := by
@@ -202,7 +213,7 @@ theorem C15_source_sequence_iter {X : Ext} {fuel : Nat} (hX : SrcExt X fuel) (s 
         push_cast at hg hs i0
         orch_eval [i0, i4, hg, hs, recordSet, indexOf, seqSelfV, srcV, Src.step, stepV]
         all_goals first | rfl | congr
-      · simp [List.lookup, seqSelfV, srcV, Src.step]
+      · simp [List.lookup, seqSelfV, srcV, Src.step, C15.iterCondVar, Gen.c15oSeqIterSrc, List.getLast?, List.getLast]
       · simp; omega
     obtain ⟨st', items, tf, rfl, h2, h3, ⟨i0, i4⟩, h5⟩ := key
     simp [obsFlow, i0, h2, allSome_map_some, h3, h5, stepV, seqSelfV, srcV]
